@@ -123,6 +123,21 @@ func Run(args []string) {
 		x.add([]byte(s))
 	}
 	x.flush()
+	// every byte value at every position of every seed (the enum scanner has no product-state exploration)
+	x.stream = "byte_sweep"
+	for _, s := range seeds {
+		for i := 0; i < len(s); i++ {
+			for b := 0; b < 256; b++ {
+				m := []byte(s)
+				if m[i] == byte(b) {
+					continue
+				}
+				m[i] = byte(b)
+				x.add(m)
+			}
+		}
+	}
+	x.flush()
 	x.stream = "mutation"
 	for i := 0; i < nMut; i++ {
 		b := []byte(seeds[r.Intn(len(seeds))])
